@@ -1187,3 +1187,156 @@ Qed.
 
 Lemma contract_free_ok0 pol l : contract_free pol = true -> contract_ok pol l = true.
 Proof. intros H. exact (contract_free_ok pol H l (prm0 pol) core0 eq_refl). Qed.
+
+(* ====================================================================================================
+   the extra object and the frame life cycle, read off the event log *)
+Definition evs_of (fid : nat) (log : list ev) : list Z := map fst (filter (fun e => Nat.eqb (snd e) fid) log).
+Definition livef (fid : nat) (l : list (nat * frame)) : bool := existsb (fun q => Nat.eqb (f_id (snd q)) fid) l.
+Definition fids (l : list (nat * frame)) : list nat := map (fun q => f_id (snd q)) l.
+(* codes: 1 Base::alloc returned, 2 extra object constructed, 3 promise constructed | 6 promise destroyed,
+   4 extra object destroyed, 5 Base::dealloc entered *)
+Definition born (x : Z) : list Z := 1 :: (if 0 <? x then [2] else []) ++ [3].
+Definition died (x : Z) : list Z := 6 :: (if 0 <? x then [4] else []) ++ [5].
+Definition lifecycle (x : Z) (nfid : nat) (l : list (nat * frame)) (fid : nat) : list Z :=
+  if (fid <? nfid)%nat then (if livef fid l then born x else born x ++ died x) else [].
+
+Record LI (x : Z) (c : core) : Prop := {
+  li_lt : forall i f, In (i, f) (frs c) -> (f_id f < c_nfid c)%nat;
+  li_nd : NoDup (fids (frs c));
+  li_keys : NoDup (keys (frs c));
+  li_log : forall fid, evs_of fid (c_log c) = lifecycle x (c_nfid c) (frs c) fid
+}.
+
+Lemma evs_of_app fid a b : evs_of fid (a ++ b) = evs_of fid a ++ evs_of fid b.
+Proof. unfold evs_of. rewrite filter_app, map_app. reflexivity. Qed.
+
+Lemma evs_of_create fid x f0 : evs_of fid (create_evs x f0) = if Nat.eqb f0 fid then born x else [].
+Proof.
+  unfold evs_of, create_evs, born. destruct (0 <? x); cbn [app filter snd map fst]; destruct (Nat.eqb f0 fid); reflexivity.
+Qed.
+Lemma evs_of_finish fid x f0 : evs_of fid (finish_evs x f0) = if Nat.eqb f0 fid then died x else [].
+Proof.
+  unfold evs_of, finish_evs, died. destruct (0 <? x); cbn [app filter snd map fst]; destruct (Nat.eqb f0 fid); reflexivity.
+Qed.
+
+Lemma fids_fdel_In l i b : In b (fids (fdel l i)) -> In b (fids l).
+Proof.
+  unfold fids. rewrite !in_map_iff. intros [[k g] [E H]]. apply In_fdel in H. exists (k, g). tauto.
+Qed.
+Lemma fids_fdel_nodup l i : NoDup (fids l) -> NoDup (fids (fdel l i)).
+Proof.
+  induction l as [|[k g] l IH]; cbn [fdel fids map snd]; [auto|].
+  intros H. inversion H as [|? ? N D]; subst.
+  destruct (Nat.eqb_spec i k) as [E|E]; [apply IH, D|].
+  cbn [fids map snd]. constructor; [|apply IH, D].
+  intros A. apply fids_fdel_In in A. exact (N A).
+Qed.
+
+Lemma livef_In fid l : livef fid l = true <-> exists k g, In (k, g) l /\ f_id g = fid.
+Proof.
+  unfold livef. rewrite existsb_exists. split.
+  - intros [[k g] [A E]]. cbn [snd] in E. apply Nat.eqb_eq in E. eauto.
+  - intros (k & g & A & E). exists (k, g). cbn [snd]. split; [exact A|apply Nat.eqb_eq, E].
+Qed.
+
+Lemma fids_inj l k1 g1 k2 g2 : NoDup (fids l) -> In (k1, g1) l -> In (k2, g2) l -> f_id g1 = f_id g2 -> (k1, g1) = (k2, g2).
+Proof.
+  induction l as [|[k g] l IH]; cbn [fids map snd In]; [tauto|].
+  intros H A B E. inversion H as [|? ? N D]; subst.
+  destruct A as [A|A]; destruct B as [B|B]; try congruence.
+  - inversion A; subst. exfalso. apply N. rewrite E. unfold fids. apply in_map_iff. exists (k2, g2); auto.
+  - inversion B; subst. exfalso. apply N. rewrite <- E. unfold fids. apply in_map_iff. exists (k1, g1); auto.
+  - exact (IH D A B E).
+Qed.
+
+Lemma livef_fdel fid l slot f : NoDup (keys l) -> NoDup (fids l) -> fget l slot = Some f ->
+  livef fid (fdel l slot) = if Nat.eqb (f_id f) fid then false else livef fid l.
+Proof.
+  intros K D G. pose proof (fget_In _ _ _ G) as GI.
+  destruct (Nat.eqb_spec (f_id f) fid) as [E|E].
+  - destruct (livef fid (fdel l slot)) eqn:L; [|reflexivity]. exfalso.
+    apply livef_In in L. destruct L as (k & g & A & EG). apply In_fdel in A. destruct A as [A NK].
+    assert ((k, g) = (slot, f)) as X by (apply (fids_inj l); auto; congruence). inversion X. congruence.
+  - destruct (livef fid l) eqn:L.
+    + apply livef_In in L. destruct L as (k & g & A & EG). apply livef_In. exists k, g. split; [|exact EG].
+      apply In_fdel. split; [exact A|]. intros ->. pose proof (fget_unique _ _ _ _ K G A). congruence.
+    + destruct (livef fid (fdel l slot)) eqn:L2; [|reflexivity]. exfalso.
+      apply livef_In in L2. destruct L2 as (k & g & A & EG). apply In_fdel in A.
+      assert (livef fid l = true) by (apply livef_In; exists k, g; tauto). congruence.
+Qed.
+
+Lemma LI_nfid0 x x' c : c_nfid c = 0%nat -> LI x c -> LI x' c.
+Proof.
+  intros Z [A B C D]. constructor; auto. intros fid. rewrite D. unfold lifecycle. rewrite Z. reflexivity.
+Qed.
+
+Lemma gstep_LI pol p c o : LI (p_x p) c ->
+  let p1 := if wf_op c o then prm_of pol p o else p in LI (p_x p1) (fst (gstep p1 c o)).
+Proof.
+  intros L. cbn zeta. unfold gstep. destruct (wf_op c o) eqn:WF; cbn [andb]; [|exact L].
+  destruct (contract (prm_of pol p o) c o) eqn:CT; cbn [fst].
+  2:{ destruct o; cbn [prm_of] in *; try exact L.
+      cbn [wf_op] in WF. repeat (apply andb_prop in WF; destruct WF as [WF ?]).
+      match goal with H : (c_nfid c =? 0)%nat = true |- _ => apply Nat.eqb_eq in H; exact (LI_nfid0 _ _ c H L) end. }
+  destruct L as [LT ND KD LG].
+  destruct o as [x a b|slot sz|slot| |]; cbn [prm_of exec fst] in *.
+  - assert (B : forall h s, LI x (mkCore h s [] 0 0 true [])).
+    { intros h s. constructor; cbn [frs c_nfid c_log]; try constructor. intros i f []. }
+    unfold init_core. cbn [p_pol p_b p_a p_x].
+    destruct pol; try apply B. destruct (0 <? b); [unfold hnew|]; apply B.
+  - cbn [wf_op] in WF. repeat (apply andb_prop in WF; destruct WF as [WF ?]).
+    destruct (fget (frs c) slot) eqn:G; [discriminate|].
+    unfold create, mk_frame. destruct (balloc p (hp c) (st c) (sz + p_x p)) as [[h1 s1] g]. cbn [fst].
+    constructor; cbn [frs c_nfid c_log].
+    + intros i f [A|A]; [inversion A; subst; cbn [f_id]; lia|]. specialize (LT _ _ A). lia.
+    + cbn [fids map snd f_id]. constructor; [|exact ND].
+      intros A. unfold fids in A. apply in_map_iff in A. destruct A as [[k g'] [E A]]. cbn [snd] in E.
+      specialize (LT _ _ A). lia.
+    + cbn [keys map fst]. constructor; [exact (fget_None_keys _ _ G)|exact KD].
+    + intros fid. rewrite evs_of_app, evs_of_create, LG. unfold lifecycle, livef. cbn [existsb snd f_id].
+      fold (livef fid (frs c)).
+      destruct (Nat.eqb_spec (c_nfid c) fid) as [E|E].
+      * subst fid. rewrite Nat.ltb_irrefl. cbn [app orb].
+        assert ((c_nfid c <? S (c_nfid c))%nat = true) as -> by (apply Nat.ltb_lt; lia). reflexivity.
+      * cbn [orb]. rewrite app_nil_r.
+        assert ((fid <? S (c_nfid c))%nat = (fid <? c_nfid c)%nat) as ->; [|reflexivity].
+        destruct (Nat.ltb_spec fid (S (c_nfid c))); destruct (Nat.ltb_spec fid (c_nfid c)); auto; lia.
+  - cbn [wf_op] in WF. apply andb_prop in WF. destruct WF as [WF G].
+    destruct (fget (frs c) slot) as [f|] eqn:GF; [|discriminate].
+    unfold finish. destruct (bdealloc p (hp c) (st c) (f_blk f) (f_tr f)) as [h1 s1]. cbn [fst].
+    constructor; cbn [frs c_nfid c_log].
+    + intros i g A. apply In_fdel in A. apply (LT i g), A.
+    + exact (fids_fdel_nodup _ _ ND).
+    + exact (keys_fdel_nodup _ _ KD).
+    + intros fid. rewrite evs_of_app, evs_of_finish, LG. unfold lifecycle.
+      rewrite (livef_fdel fid _ _ _ KD ND GF).
+      destruct (Nat.eqb_spec (f_id f) fid) as [E|E]; [|rewrite app_nil_r; reflexivity].
+      subst fid. pose proof (LT _ _ (fget_In _ _ _ GF)) as LTf.
+      assert ((f_id f <? c_nfid c)%nat = true) as -> by (apply Nat.ltb_lt; exact LTf).
+      assert (livef (f_id f) (frs c) = true) as ->; [|reflexivity].
+      apply livef_In. exists slot, f. split; [exact (fget_In _ _ _ GF)|reflexivity].
+  - unfold destroy. constructor; cbn [frs c_nfid c_log]; auto.
+  - discriminate.
+Qed.
+
+Lemma run_LI pol : forall l p c, LI (p_x p) c ->
+  LI (p_x (fst (snd (run_with gstep pol p c l)))) (snd (snd (run_with gstep pol p c l))).
+Proof.
+  induction l as [|o l IH]; intros p c L; cbn [run_with]; [exact L|].
+  pose proof (gstep_LI pol p c o L) as L1. cbn zeta in L1.
+  destruct (gstep (if wf_op c o then prm_of pol p o else p) c o) as [c1 ob] eqn:E. cbn [fst] in L1.
+  specialize (IH _ _ L1).
+  destruct (run_with gstep pol (if wf_op c o then prm_of pol p o else p) c1 l) as [obs r]. exact IH.
+Qed.
+
+(* C19 extra object / life cycle: for every frame id, the events concerning it are exactly
+   [alloc; (ctor;) promise] while it lives, followed by [promise dtor; (dtor;) dealloc] once it is finished, nothing before
+   it is created: the extra object is constructed exactly once, inside alloc, before the promise (the coroutine object)
+   exists; it is destroyed exactly once, after the promise and before the memory goes back to the base policy. *)
+Lemma extra_object pol l fid : contract_ok pol l = true ->
+  let c := final_u pol l in
+  evs_of fid (c_log c) = lifecycle (p_x (final_p pol l)) (c_nfid c) (frs c) fid.
+Proof.
+  intros H c. unfold c, final_p, final_u, run_u. unfold contract_ok in H. rewrite (contract_ok_same pol l _ _ H).
+  apply (li_log _ _ (run_LI pol l (prm0 pol) core0 ltac:(constructor; cbn; try constructor; intros ? ? []))).
+Qed.
